@@ -71,6 +71,11 @@ class SArray:
         self.is_view = False
         self.base = None          # for write-through views (explicit out-params only)
         self.base_map = None
+        if V.CUR is not None:
+            V.CUR.counter += 1
+            self.born = V.CUR.counter
+        else:
+            self.born = 0
 
     def __repr__(self):
         return f'SArray(shape={self.shape}, dtype={self.dtype})'
@@ -235,6 +240,9 @@ class SArray:
             conv = self._conv_scalar
         old_fn = self.fn
         dtype = self.dtype
+        from . import loops
+        if loops.active_vars() and loops.is_outer(self):
+            return self._family_store(parsed, src, conv)
 
         def fn(idx, parsed=parsed, old_fn=old_fn, src=src, conv=conv):
             conds = []
@@ -257,10 +265,74 @@ class SArray:
             # write-through to the parent (explicit out-param views)
             self.base.setitem_from_view(self, lib)
 
+    def _family_store(self, parsed, src, conv):
+        """store executed by the generic iteration of an L3 loop nest into an array that outlives it"""
+        from . import loops
+        c = cur()
+        levels = loops.active_levels()
+        old_fn = self.fn
+        nd = len(self.shape)
+        i0 = []
+        for pz in parsed:
+            if pz[0] == 'int':
+                i0.append(pz[1])
+            else:
+                jz = c.fresh_int('fsj')
+                c.nonneg_ids.add(jz.get_id())
+                c.assume_raw(z3.And(jz >= 0, jz < zint(ops_binop('-', pz[2], pz[1]))))
+                i0.append(ops_binop('+', pz[1], mk_int(jz)))
+        i0 = tuple(i0)
+
+        def region(idx, sub=None):
+            conds = []
+            ridx = []
+            for p, i in zip(parsed, idx):
+                if p[0] == 'int':
+                    v = p[1] if sub is None else loops.subst(p[1], sub)
+                    conds.append(ops_cmp('==', i, v))
+                else:
+                    lo = p[1] if sub is None else loops.subst(p[1], sub)
+                    hi = p[2] if sub is None else loops.subst(p[2], sub)
+                    conds.append(And(ops_cmp('>=', i, lo), ops_cmp('<', i, hi)))
+                    ridx.append(ops_binop('-', i, lo))
+            return And(*conds), tuple(ridx)
+        loops.unique_cover_obligation('array_store', levels, True, i0)
+
+        def fn(idx):
+            ws = loops.witness_for(levels, idx)
+            pairs = loops.family_pairs(levels, ws)
+            inr, _ = region(idx, pairs)
+            cond = And(loops.family_in_range(levels, ws), inr)
+            if cond is False:
+                return old_fn(idx)
+            if cond is not True and c.prove(cond):
+                cond = True
+            # evaluate the stored value at placeholder indices, then substitute loop indices and positions together
+            ph = tuple(mk_int(c.fresh_int('fi')) for _ in range(nd))
+            inr_ph, ridx = region(ph)
+            before = c.counter
+            c.guards.append(inr_ph)          # side conditions of the stored value are needed inside the region only
+            try:
+                newv = conv(src(ridx))
+            finally:
+                c.guards.pop()
+            loops.check_closed(newv, before)
+            newv = loops.subst(newv, pairs + [(zint(a), zint(b)) for a, b in zip(ph, idx)])
+            if cond is True:
+                return newv
+            return ite_val(cond, newv, old_fn(idx))
+        self.fn = fn
+        c.ghost.setdefault('family_stores', []).append(('array', self, levels))
+        if getattr(self, 'writable_view', False) and self.base is not None:
+            raise Unsupported('family store through a view of a view')
+
     def setitem_from_view(self, view, lib):
         parsed = view.base_map
         old_fn = self.fn
         vfn = view.fn
+        from . import loops
+        if loops.active_vars() and loops.is_outer(self):
+            return self._family_store(parsed, lambda ridx: vfn(ridx), lambda v: v)
 
         def fn(idx):
             conds = []
